@@ -221,6 +221,7 @@ def run(ctx):
     st = ctx.suite("O-metrics")
     g = ctx.gen
     shared = FMMetrics()
+    direct = FMMetrics()
     all_methods = None
     for label, m in cases(ctx):
         # filter: none, or a random subset of the method names
@@ -258,6 +259,17 @@ def run(ctx):
             fresh.only_these_metrics(flt)
         if canon_impl(fresh.execute(fm).get_result()) != irep[1]:
             st.oracle_fail(label, req, "history:differs-from-fresh-object", "")
+        # the public method behind execute(), on one object for every model of the run
+        if flt is None:
+            try:
+                direct_rep = ("ok", canon_impl(direct.calculate_metamodel_metrics(fm)))
+            except RecursionError:
+                raise
+            except Exception as e:  # noqa: BLE001
+                direct_rep = ("err", spec.exn_name(e))
+            if direct_rep != irep:
+                st.oracle_fail(label, req, "history:differs-from-fresh-object",
+                               "calculate_metamodel_metrics on an object that analysed other models before")
         if flt is not None:
             full = {e["name"]: e for e in FMMetrics().execute(fm).get_result()}
             for e in entries:
